@@ -185,6 +185,20 @@ int main() {
                     std::cout << "ldlcert " << ((prod && lower && dnz) ? 1 : 0) << "\n";
                 }
             }
+            else if (c == "csc.permute") {
+                long n = t.nat();
+                std::vector<int> perm; for (long i = 0; i < n; i++) perm.push_back((int) t.nat());
+                RawS a = raw(t);
+                SMat A = sparse_of(a, true);
+                FixedOrd ord; ord.set(perm);
+                SMat C;
+                Vec<int> map = sparse::permute_sparse_symmetric_matrix(A, C, ord);
+                std::cout << "cscouter"; for (isize j = 0; j <= C.outerSize(); j++) std::cout << " " << C.outerIndexPtr()[j];
+                std::cout << "\ncscinner"; for (isize k = 0; k < C.nonZeros(); k++) std::cout << " " << C.innerIndexPtr()[k];
+                std::cout << "\ncscvals"; for (isize k = 0; k < C.nonZeros(); k++) std::cout << " " << C.valuePtr()[k].str();
+                std::cout << "\ncscmap"; for (isize k = 0; k < map.rows(); k++) std::cout << " " << map(k);
+                std::cout << "\n";
+            }
             else if (c == "ord.amd") {
                 RawS a = raw(t);
                 SMat A = sparse_of(a, true);
